@@ -17,6 +17,7 @@ import itertools
 import re
 
 from .common import *
+from ..tables import decided
 from .state_common import *
 from .validate_spec import config_rec, PROTOS, DIRS, STRATS, FAMS
 
@@ -123,7 +124,7 @@ def run(chk, tier):
 
     # ---- R2 / R4 ------------------------------------------------------------------------------------------
     fu, _, tr = probe_traces(prog)
-    NS = r'call:state_updater::nat_status\(p\.expected_udp_checksum#Some\.0, p\.actual_udp_checksum#Some\.0, self\.prev_hop_checksum\)'
+    NS = r'call:state_updater::nat_status\(field:0\(p\.expected_udp_checksum\), field:0\(p\.actual_udp_checksum\), self\.prev_hop_checksum\)'
     bad2 = bad4 = None
     n_some = 0
     for cell in CELLS:
@@ -183,13 +184,13 @@ def run(chk, tier):
         val = vshow(o.value)
         has_prev = d.get('discr(prev)')
         if has_prev == 1:
-            eq = d.get('Eq(prev#Some.0, actual.0)', d.get('Eq(actual.0, prev#Some.0)'))
+            eq = decided(o.st.decisions, 'Eq(field:0(prev), actual.0)')
             row = ('prev', eq)
-            want = '(NatStatus::NotDetected, prev#Some.0)' if eq == 1 else '(NatStatus::Detected, actual.0)'
+            want = '(NatStatus::NotDetected, field:0(prev))' if eq == 1 else '(NatStatus::Detected, actual.0)'
             if eq == 1 and val == '(NatStatus::NotDetected, actual.0)':
                 want = val
         elif has_prev == 0 or (isinstance(has_prev, tuple) and 1 in has_prev[1]):
-            eq = d.get('Eq(expected.0, actual.0)', d.get('Eq(actual.0, expected.0)'))
+            eq = decided(o.st.decisions, 'Eq(expected.0, actual.0)')
             row = ('first', eq)
             want = '(NatStatus::NotDetected, actual.0)' if eq == 1 else '(NatStatus::Detected, actual.0)'
             if eq == 1 and val == '(NatStatus::NotDetected, expected.0)':
@@ -223,7 +224,7 @@ def run(chk, tier):
             det = str(a)[:260]
             if a[0] == 'self' and a[2] == 'src_port.0' and a[3] == 'dest_port.0' and \
                     re.fullmatch(r'call:array::index\(repeat\(self\.payload_pattern\.0, \d+\), Range\(0, Min\(payload_size, \d+\)\)\)|subslice\(repeat\(self\.payload_pattern\.0, \d+\), 0, Min\(payload_size, \d+\)\)', a[4]) and \
-                    re.fullmatch(r'Result::Ok\(call:UdpPacket::get_checksum\(unwrap\(call:Ipv4::make_udp_packet\(.*\)\)\)\)', vshow(o.value)):
+                    re.fullmatch(r'Result::Ok\(call:UdpPacket::get_checksum\(field:0\(call:Ipv4::make_udp_packet\(.*\)\)\)\)', vshow(o.value)):
                 good = True
     if good:
         chk.ok('R5', 'expected-inputs', 'make_udp_packet(self addrs, src_port, dest_port, pattern[..min(len, buf)]).get_checksum()')
@@ -236,7 +237,7 @@ def run(chk, tier):
     outs = e1b.run(fe, [e1b.obj_ref(st, selfv), e1b.sym_ref(st, 'ipv4')], st)
     good = False
     det = ''
-    EX = r'unwrap\(call:ipv4::extract_udp_packet\(ipv4\)\)'
+    EX = r'field:0\(call:ipv4::extract_udp_packet\(ipv4\)\)'
     for o in outs:
         nw = user_calls(o, r'UdpProtocolResponse::new$')
         cc = user_calls(o, r'Ipv4::calc_udp_checksum$')
@@ -245,8 +246,8 @@ def run(chk, tier):
             c = [vshow(x) for x in cc[0][7]]
             det = '%s | %s' % (a[5:8], c[1:])
             # new(identifier, dest_addr, src_port, dest_port, tos, expected, actual, payload_len, has_magic)
-            if re.fullmatch(r'unwrap\(call:Ipv4::calc_udp_checksum\(.*\)\)', a[5]) and re.fullmatch(r'field:2\(%s\)' % EX, a[6]) and \
-                    c[1:] == ['Port(field:0(unwrap(call:ipv4::extract_udp_packet(ipv4))))', 'Port(field:1(unwrap(call:ipv4::extract_udp_packet(ipv4))))', 'field:4(unwrap(call:ipv4::extract_udp_packet(ipv4)))']:
+            if re.fullmatch(r'field:0\(call:Ipv4::calc_udp_checksum\(.*\)\)', a[5]) and re.fullmatch(r'field:2\(%s\)' % EX, a[6]) and \
+                    c[1:] == ['Port(field:0(field:0(call:ipv4::extract_udp_packet(ipv4))))', 'Port(field:1(field:0(call:ipv4::extract_udp_packet(ipv4))))', 'field:4(field:0(call:ipv4::extract_udp_packet(ipv4)))']:
                 good = True
     if good:
         chk.ok('R5', 'actual-and-args', 'expected = calc_udp_checksum(quoted src, quoted dest, quoted length); actual = quoted checksum')
@@ -256,7 +257,7 @@ def run(chk, tier):
     st = St()
     outs = Engine(prog, inline_depth=0).run(fx, [Engine(prog).sym_ref(st, 'ipv4')], st)
     oks = [vshow(o.value) for o in outs if vshow(o.value).startswith('Result::Ok')]
-    N = r'unwrap\(call:UdpPacket::new_view\(call:Ipv4Packet::payload\(ipv4\)\)\)'
+    N = r'field:0\(call:UdpPacket::new_view\(call:Ipv4Packet::payload\(ipv4\)\)\)'
     rx = (r'Result::Ok\(\(call:UdpPacket::get_source\(%s\), call:UdpPacket::get_destination\(%s\), call:UdpPacket::get_checksum\(%s\), call:Ipv4Packet::get_identification\(ipv4\), '
           r'saturating_sub\(call:UdpPacket::get_length\(%s\), (8|as_u16\(call:UdpPacket::minimum_packet_size\(\)\))\)\)\)' % (N, N, N, N))
     if oks and all(re.fullmatch(rx, v) for v in oks):
